@@ -19,7 +19,8 @@ def mk_dwarfinfo(ctx, little, addr_size, machine='x64', addresses=None, merge_re
         st = ctx.stream(list(data), 0, merge_reads=merge_reads) if merge_reads else ctx.stream(list(data))
         streams[name] = st
         addr = (addresses or {}).get(name, 0)
-        kw[name + '_sec'] = DI.DebugSectionDescriptor(stream=st, name='.' + name, global_offset=0, size=len(data), address=addr)
+        # the descriptor name is documented as 'for descriptional purposes only': every section gets the same one, so nothing may be keyed by it
+        kw[name + '_sec'] = DI.DebugSectionDescriptor(stream=st, name='section', global_offset=0, size=len(data), address=addr)
     cfg = DI.DwarfConfig(little_endian=little, machine_arch=machine, default_address_size=addr_size)
     return DI.DWARFInfo(config=cfg, **kw), streams
 
